@@ -170,6 +170,11 @@ def unit_clauses(asm):
     return res
 
 
+def KNOWN_UNITS():
+    p = os.path.join(SPEC, 'known_units.txt')
+    return set(l.strip() for l in open(p) if l.strip() and not l.startswith('#')) if os.path.exists(p) else set()
+
+
 def call_graph(asm):
     """approximate: unit -> set of unit paths whose last path segment is called in its body"""
     lines = asm['text'].split('\n')
@@ -204,7 +209,7 @@ def build(repo=REPO, force=False, canary=None, verify_only=None, quiet=False, ex
         t0 = time.time()
         sp, rows_mod, pre = load_spec()
         try:
-            asm = gen.assemble(repo, sp, rows=rows_mod, canary=canary, opts=dict(prelude_files=pre))
+            asm = gen.assemble(repo, sp, rows=rows_mod, canary=canary, opts=dict(prelude_files=pre, known_units=KNOWN_UNITS()))
         except gen.ToolError as e:
             return dict(tool_error=str(e), key=key, cache='miss')
         gpath = os.path.join(GEN, 'pushr_vs_%s.rs' % re.sub(r'\W', '_', key)[-40:])
@@ -236,7 +241,7 @@ def build(repo=REPO, force=False, canary=None, verify_only=None, quiet=False, ex
             if not culprits or canary or verify_fn: break
             auto_external.update(culprits)
             for pth, why in auto_external.items(): sp.external[pth] = 'AUTO: ' + why
-            asm = gen.assemble(repo, sp, rows=rows_mod, canary=canary, opts=dict(prelude_files=pre))
+            asm = gen.assemble(repo, sp, rows=rows_mod, canary=canary, opts=dict(prelude_files=pre, known_units=KNOWN_UNITS()))
             open(gpath, 'w').write(asm['text'])
             v = vrun.run_verus(gpath, args)
             fails, tool = classify(v['diags'], asm)
@@ -290,3 +295,4 @@ if __name__ == '__main__':
         print(u)
         for f in fs: print('    ', f['cls'], f['oid'][:150], f['src'])
     for t in r['tool'][:20]: print('TOOL', t)
+    for u, why in (r.get('auto_external') or {}).items(): print('AUTO-EXTERNAL', u, why[:300])
